@@ -4,6 +4,7 @@ package c32
 
 import (
 	"fmt"
+	"sort"
 	"sync"
 	"testing"
 	"time"
@@ -297,7 +298,19 @@ func checkFaultDbg(c FaultCase, r *kit.R, dbg func(cli, srv *endpoint)) {
 		}
 		judge(r, what, cli, srv)
 
+		// the proxy's pump goroutines may still be forwarding (or dropping) records while the
+		// connections wind down, and the hook mutates the plan under pl.mu: read a snapshot
+		// under the same lock (an unlocked iteration here crashed the process with "concurrent
+		// map iteration and map write", which the driver reported as a violation)
+		pl.mu.Lock()
+		var planClasses []string
 		for k := range pl.classes {
+			planClasses = append(planClasses, k)
+		}
+		applied, deepest := pl.applied, pl.deepest
+		pl.mu.Unlock()
+		sort.Strings(planClasses)
+		for _, k := range planClasses {
 			r.Class(k)
 		}
 		r.Class(fmt.Sprintf("vers=%04x", srv.conn.ConnectionState().Version))
@@ -312,12 +325,12 @@ func checkFaultDbg(c FaultCase, r *kit.R, dbg func(cli, srv *endpoint)) {
 		default:
 			r.Class("handshake:both-failed")
 		}
-		if pl.applied == 0 {
+		if applied == 0 {
 			r.Class("fault-not-reached")
 		}
 		// non-trivial: a fault was applied to a record that is not the first of
 		// its direction, i.e. the receiver had consumed >= 1 full message before
-		if pl.applied > 0 && pl.deepest >= 1 {
+		if applied > 0 && deepest >= 1 {
 			r.NonTrivial()
 		}
 	})
